@@ -526,8 +526,8 @@ fn parse_mh2o_chunk<R: Read + Seek>(
                         // Read vertices and place them at correct grid positions
                         // Vertices are stored in row-major order: z * 9 + x
                         // CRITICAL: Clamp coordinates to [0, 8] - some WoW files have invalid ranges
-                        let z_end = ((instance.y_offset + instance.height) as usize).min(8);
-                        let x_end = ((instance.x_offset + instance.width) as usize).min(8);
+                        let z_end = (instance.y_offset as usize + instance.height as usize).min(8);
+                        let x_end = (instance.x_offset as usize + instance.width as usize).min(8);
 
                         for z in instance.y_offset as usize..=z_end {
                             for x in instance.x_offset as usize..=x_end {
@@ -544,8 +544,8 @@ fn parse_mh2o_chunk<R: Read + Seek>(
                     }
                     Some(crate::chunks::mh2o::LiquidVertexFormat::HeightUv) => {
                         let mut grid: [Option<HeightUvVertex>; 81] = [None; 81];
-                        let z_end = ((instance.y_offset + instance.height) as usize).min(8);
-                        let x_end = ((instance.x_offset + instance.width) as usize).min(8);
+                        let z_end = (instance.y_offset as usize + instance.height as usize).min(8);
+                        let x_end = (instance.x_offset as usize + instance.width as usize).min(8);
 
                         for z in instance.y_offset as usize..=z_end {
                             for x in instance.x_offset as usize..=x_end {
@@ -562,8 +562,8 @@ fn parse_mh2o_chunk<R: Read + Seek>(
                     }
                     Some(crate::chunks::mh2o::LiquidVertexFormat::DepthOnly) => {
                         let mut grid: [Option<DepthOnlyVertex>; 81] = [None; 81];
-                        let z_end = ((instance.y_offset + instance.height) as usize).min(8);
-                        let x_end = ((instance.x_offset + instance.width) as usize).min(8);
+                        let z_end = (instance.y_offset as usize + instance.height as usize).min(8);
+                        let x_end = (instance.x_offset as usize + instance.width as usize).min(8);
 
                         for z in instance.y_offset as usize..=z_end {
                             for x in instance.x_offset as usize..=x_end {
@@ -580,8 +580,8 @@ fn parse_mh2o_chunk<R: Read + Seek>(
                     }
                     Some(crate::chunks::mh2o::LiquidVertexFormat::HeightUvDepth) => {
                         let mut grid: [Option<HeightUvDepthVertex>; 81] = [None; 81];
-                        let z_end = ((instance.y_offset + instance.height) as usize).min(8);
-                        let x_end = ((instance.x_offset + instance.width) as usize).min(8);
+                        let z_end = (instance.y_offset as usize + instance.height as usize).min(8);
+                        let x_end = (instance.x_offset as usize + instance.width as usize).min(8);
 
                         for z in instance.y_offset as usize..=z_end {
                             for x in instance.x_offset as usize..=x_end {
